@@ -1,9 +1,23 @@
 // @append-to: src/redis/resp_optimized.rs
+// Kani harnesses for RespCodec (C15 bounded stand-ins): totality / no over-read / prefix-stability.
+// Appended to a scratch copy of resp_optimized.rs by /verif/engine/kani_run.py (child module: sees private fns).
+//
+// INPUT SPACE: byte strings over the 18-symbol alphabet `+ - : $ * \r \n 0-9 a`.  Rationale (not proved): every
+// other byte value is handled like `a` by the decoder - it is neither a type byte, nor CR/LF, nor a digit/sign.
+// (Bytes >= 0x80 additionally make from_utf8 fail on length/integer lines, which is an Err like `a` gives.)
+//
+// STUBS (all stated; needed to make CBMC terminate, measured):
+//  * memchr::memchr -> byte loop returning the first index (the crate's runtime CPU dispatch uses cpuid inline asm);
+//  * bytes::Bytes::copy_from_slice -> Bytes::from_static(leaked copy): same contents, no shared-vtable/atomics;
+//  * core::str::from_utf8 -> unchecked conversion (exact on the ASCII alphabet);
+//  * alloc::fmt::format, core::fmt::write, Formatter::pad -> produce nothing: the TEXT of error messages built with
+//    format!/to_string() is empty.  Only Ok/Err and the literal "Incomplete" sentinel (a plain str copy, not
+//    stubbed) are observed.
 #[cfg(kani)]
 mod verif_kani_resp_codec {
     use super::*;
-    // rustc resolves this `use` to the crate the code under test links against (a second `memchr`
-    // lives in the std sysroot and is what a plain `memchr::…` stub path would name)
+    // rustc resolves this `use` to the memchr crate the code links against (a second `memchr` crate lives in the
+    // std sysroot, and that is the one a plain `memchr::…` path in kani::stub would name)
     use memchr::memchr as dep_memchr;
 
     const ALPHABET: [u8; 18] = [
@@ -14,24 +28,22 @@ mod verif_kani_resp_codec {
         kani::assume(i < ALPHABET.len());
         ALPHABET[i]
     }
-    fn any_input<const N: usize>() -> ([u8; N], usize) {
+    fn any_input<const N: usize>() -> [u8; N] {
         let mut a = [0u8; N];
         let mut k = 0;
         while k < N {
             a[k] = any_sym();
             k += 1;
         }
-        let len: usize = kani::any();
-        kani::assume(len <= N);
-        (a, len)
+        a
     }
 
-    // ---- stubs (error-message rendering only; see file header)
     fn fmt_format_stub(_args: core::fmt::Arguments<'_>) -> String { String::new() }
     fn fmt_write_stub(_out: &mut dyn core::fmt::Write, _args: core::fmt::Arguments<'_>) -> core::fmt::Result { Ok(()) }
     fn fmt_pad_stub<'a>(_f: &mut core::fmt::Formatter<'a>, _s: &str) -> core::fmt::Result where 'a: 'a { Ok(()) }
-
-    // memchr crate (runtime CPU-feature dispatch uses inline asm, unsupported by Kani): first index of the byte, by a loop
+    fn from_utf8_ascii_stub(v: &[u8]) -> Result<&str, core::str::Utf8Error> {
+        Ok(unsafe { core::str::from_utf8_unchecked(v) })
+    }
     fn memchr_stub(needle: u8, haystack: &[u8]) -> Option<usize> {
         let mut i = 0;
         while i < haystack.len() {
@@ -42,55 +54,104 @@ mod verif_kani_resp_codec {
         }
         None
     }
+    fn bytes_copy_stub(data: &[u8]) -> Bytes {
+        Bytes::from_static(Box::leak(data.to_vec().into_boxed_slice()))
+    }
 
-    unsafe fn memchr_raw_stub(needle: u8, start: *const u8, end: *const u8) -> Option<*const u8> {
-        let mut p = start;
-        while p < end {
-            if *p == needle {
-                return Some(p);
-            }
-            p = p.add(1);
+    // the dispatcher of RespCodec::try_parse restricted to the four non-recursive frame types
+    fn parse_scalar(input: &[u8]) -> Option<Result<(RespValueZeroCopy, usize), String>> {
+        match input[0] {
+            b'+' => Some(RespCodec::parse_simple_string(input)),
+            b'-' => Some(RespCodec::parse_error(input)),
+            b':' => Some(RespCodec::parse_integer(input)),
+            b'$' => Some(RespCodec::parse_bulk_string(input)),
+            _ => None,
         }
-        None
+    }
+    // equality of two non-array values (the derived PartialEq recurses through Array)
+    fn scalar_eq(a: &RespValueZeroCopy, b: &RespValueZeroCopy) -> bool {
+        match (a, b) {
+            (RespValueZeroCopy::SimpleString(x), RespValueZeroCopy::SimpleString(y)) => x[..] == y[..],
+            (RespValueZeroCopy::Error(x), RespValueZeroCopy::Error(y)) => x[..] == y[..],
+            (RespValueZeroCopy::Integer(x), RespValueZeroCopy::Integer(y)) => x == y,
+            (RespValueZeroCopy::BulkString(None), RespValueZeroCopy::BulkString(None)) => true,
+            (RespValueZeroCopy::BulkString(Some(x)), RespValueZeroCopy::BulkString(Some(y))) => x[..] == y[..],
+            _ => false,
+        }
+    }
+    fn is_incomplete(r: &Option<Result<(RespValueZeroCopy, usize), String>>) -> bool {
+        match r {
+            // == "Incomplete", spelled out (str equality is a memcmp loop of 10 > the unwind bound)
+            Some(Err(e)) => {
+                let b = e.as_bytes();
+                b.len() == 10 && b[0] == b'I' && b[1] == b'n' && b[2] == b'c' && b[3] == b'o' && b[4] == b'm'
+                    && b[5] == b'p' && b[6] == b'l' && b[7] == b'e' && b[8] == b't' && b[9] == b'e'
+            }
+            _ => false,
+        }
     }
 
-    // the alphabet is ASCII, so UTF-8 validation always succeeds: skip its loop
-    fn from_utf8_ascii_stub(v: &[u8]) -> Result<&str, core::str::Utf8Error> {
-        Ok(unsafe { core::str::from_utf8_unchecked(v) })
+    // For every k in 1..=N: decode the first k bytes (no panic is Kani's default check), no over-read, and
+    // prefix-stability against the decoding of all N bytes:
+    //   full = Ok((v, n))  ==>  every strict prefix of s[..n] yields Err("Incomplete"), and every s[..k] with
+    //   k >= n (i.e. s[..n] ++ t) decodes to the same value and the same n.
+    fn check_scalars<const N: usize>() {
+        let buf = any_input::<N>();
+        let full = parse_scalar(&buf[..]);
+        if let Some(Ok((_, n))) = &full {
+            assert!(0 < *n && *n <= N);
+        }
+        let mut k = 1;
+        while k < N {
+            let part = parse_scalar(&buf[..k]);
+            if let Some(Ok((_, m))) = &part {
+                assert!(0 < *m && *m <= k);
+            }
+            if let Some(Ok((v, n))) = &full {
+                if k < *n {
+                    assert!(is_incomplete(&part));
+                } else {
+                    match &part {
+                        Some(Ok((pv, pn))) => assert!(*pn == *n && scalar_eq(pv, v)),
+                        _ => assert!(false),
+                    }
+                }
+            }
+            core::mem::forget(part); // the value type is recursive: its drop glue would be unwound to the full bound
+            k += 1;
+        }
+        core::mem::forget(full);
     }
 
-    // @harness: h_codec_total_n4
-    // @bound: probe
+    // @harness: h_codec_scalars_n5
+    // @bound: all byte strings of length 1..=5 over the 18-symbol alphabet; scalar frame types (+ - : $) via the real parse_* fns; unwind 7
     // @tier: quick
     // @complete: false
     #[kani::proof]
-    #[kani::unwind(4)]
-    #[kani::stub(core::str::from_utf8, from_utf8_ascii_stub)]
+    #[kani::unwind(7)]
     #[kani::stub(dep_memchr, memchr_stub)]
+    #[kani::stub(bytes::Bytes::copy_from_slice, bytes_copy_stub)]
+    #[kani::stub(core::str::from_utf8, from_utf8_ascii_stub)]
     #[kani::stub(alloc::fmt::format, fmt_format_stub)]
     #[kani::stub(core::fmt::write, fmt_write_stub)]
     #[kani::stub(core::fmt::Formatter::pad, fmt_pad_stub)]
-    fn h_codec_total_n4() {
-        let (buf, _len) = any_input::<2>();
-        let s = &buf[..];
-        kani::assume(s[0] != b'*');
-        if let Ok((_, n)) = RespCodec::try_parse(s) {
-            assert!(0 < n && n <= 2);
-        }
+    fn h_codec_scalars_n5() {
+        check_scalars::<5>();
     }
 
-    // @harness: h_probe_memchr
-    // @bound: probe
+    // @harness: h_codec_scalars_n4
+    // @bound: all byte strings of length 1..=4 over the 18-symbol alphabet; scalar frame types (+ - : $) via the real parse_* fns; unwind 6
     // @tier: quick
     // @complete: false
     #[kani::proof]
-    #[kani::unwind(8)]
+    #[kani::unwind(6)]
     #[kani::stub(dep_memchr, memchr_stub)]
-    fn h_probe_memchr() {
-        let (buf, len) = any_input::<4>();
-        let r = memchr::memchr(b'\r', &buf[..len]);
-        if let Some(i) = r { assert!(buf[i] == b'\r'); }
-        let r2 = RespCodec::find_crlf(&buf[..len]);
-        if let Some(i) = r2 { assert!(buf[i] == b'\r'); }
+    #[kani::stub(bytes::Bytes::copy_from_slice, bytes_copy_stub)]
+    #[kani::stub(core::str::from_utf8, from_utf8_ascii_stub)]
+    #[kani::stub(alloc::fmt::format, fmt_format_stub)]
+    #[kani::stub(core::fmt::write, fmt_write_stub)]
+    #[kani::stub(core::fmt::Formatter::pad, fmt_pad_stub)]
+    fn h_codec_scalars_n4() {
+        check_scalars::<4>();
     }
 }
